@@ -151,6 +151,29 @@ def run(ctx):
                          dict(ignore_disqualification=True)))
     if hour_b is not None:
         families.append(("hourly", lambda: HourlyModel().fit(hour_b, ignore_disqualification=True), HourlyModel, hourly_sets(), dict(ignore_disqualification=True)))
+    # an hourly model whose baseline stops in September: the (month, weekday) combinations of October-December have no fitted
+    # load-shape cluster and are matched, at predict time, to the nearest fitted one FROM THE REPORTING SET'S OWN USAGE — per
+    # reporting set, so two sets with the same missing combinations but different autumn shapes must each get their own match
+    def shaped_hourly(start, days, swap_from_october=False):
+        idx = pd.date_range(start, periods=24 * days, freq="h", tz=TZ)
+        h, hod, wk = np.arange(len(idx)), idx.hour.values, idx.dayofweek.values >= 5
+        if swap_from_october:
+            wk = np.where(idx.month.values >= 10, ~wk, wk)
+        T = 55 + 25 * np.sin(h / 8760 * 2 * np.pi - 2) + 6 * np.sin(h / 24 * 2 * np.pi)
+        shape = np.where(wk, np.exp(-((hod - 19) / 3.0) ** 2), np.exp(-((hod - 13) / 3.0) ** 2))
+        obs = 1 + 0.03 * np.abs(T - 60) + 1.5 * shape + np.random.default_rng(1).normal(0, 0.05, len(h))
+        return pd.DataFrame({"temperature": T, "observed": obs}, index=idx)
+
+    try:
+        short_b = HourlyBaselineData(shaped_hourly("2022-01-01", 273), is_electricity_data=True)
+        short_sets = {"year_1": HourlyReportingData(shaped_hourly("2023-01-01", 365), is_electricity_data=True),
+                      "year_2_other_autumn_shape": HourlyReportingData(shaped_hourly("2023-01-01", 365, swap_from_october=True), is_electricity_data=True)}
+        base_obj_short = short_b
+        families.append(("hourly_short_baseline", lambda: HourlyModel(settings={"seed": 11}).fit(short_b, ignore_disqualification=True), HourlyModel,
+                         short_sets, dict(ignore_disqualification=True)))
+    except Exception as e:  # noqa
+        res["hist"]["short_baseline_unavailable:" + type(e).__name__] = 1
+        base_obj_short = None
     other_fit = [lambda: quiet(DailyModel(model="legacy").fit, DailyBaselineData(synth_daily(seed=11), is_electricity_data=True)),
                  lambda: quiet(DailyModel, settings={"weekday_weekend": {"friday": "weekend"}}),
                  lambda: quiet(BillingModel)]
@@ -161,7 +184,7 @@ def run(ctx):
         return ([getattr(w, "qualified_name", str(w)) for w in getattr(obj, "warnings", [])],
                 [getattr(w, "qualified_name", str(w)) for w in getattr(obj, "disqualification", [])])
 
-    base_obj = dict(daily=daily_b, billing=bill_b, hourly=hour_b)
+    base_obj = dict(daily=daily_b, billing=bill_b, hourly=hour_b, hourly_short_baseline=base_obj_short)
     for fam, mkfit, cls, sets, kw in families:
         base_lists0 = lists_of(base_obj[fam])
         try:
@@ -182,6 +205,10 @@ def run(ctx):
             hist = [rng.choice(keys) for _ in range(rng.randint(2, 6))]
             if fam == "hourly" and hno == 0:
                 hist = ["july_week", "january_week", "day"]          # the order named in the property's text
+            if fam == "hourly_short_baseline":
+                if hno > 0 and not thorough:
+                    break
+                hist = ["year_1", "year_2_other_autumn_shape", "year_1"]
             if fam == "hourly" and hno == 1:
                 hist = ["july_week_with_ghi", "july_week", "july_week_with_ghi"]
             trace = []
